@@ -154,15 +154,16 @@ Proof.
 Qed.
 
 (** the part of [handle_replay] after the insertion of the header: the precommits are stored
-    with the round and the commit shift is evaluated *)
+    with the round, the voting view is marked updated (version bump, view-manager event) and the
+    commit shift is evaluated - the shape of [apply_votes] for a precommit on the voting view *)
 Definition replay_store (s1 : kstate) (hd : hdr) (cp : cproof) (temp : pmap) : res (kstate * N) :=
   let v := k_vot s1 in
   let pc' := fold_left (fun m e => pm_set m (fst e) (snd e)) temp (v_pc v) in
   let v1 := with_pc v pc' in
-  let v2 := with_sum v1 (sum_set_precommits (v_sum v1) (vs_pows (v_vals v1)) pc') in
+  let v2 := bump (with_sum v1 (sum_set_precommits (v_sum v1) (vs_pows (v_vals v1)) pc')) in
   let coll := map_to_sparse (vs_pkh (v_vals v2)) pc' in
-  let s2 := log_w (set_rounds (set_vot s1 v2) (rs_overwrite_pc (st_rounds s1) (hd_height hd) (cp_round cp) coll))
-                  (WPC (hd_height hd) (cp_round cp) coll) in
+  let s2 := ev_w (log_w (set_rounds (set_vot s1 v2) (rs_overwrite_pc (st_rounds s1) (hd_height hd) (cp_round cp) coll))
+                        (WPC (hd_height hd) (cp_round cp) coll)) (EvMark ViewIDVoting v2) in
   bind (check_voting_precommit_shift s2) (fun s3 => Ok (s3, 0)).
 
 Lemma K_replay_store ih ivs s1 hd cp temp s' res :
@@ -178,7 +179,7 @@ Proof.
   set (v := k_vot s1).
   set (pc' := fold_left (fun m e => pm_set m (fst e) (snd e)) temp (v_pc v)).
   set (v1 := with_pc v pc').
-  set (v2 := with_sum v1 (sum_set_precommits (v_sum v1) (vs_pows (v_vals v1)) pc')).
+  set (v2 := bump (with_sum v1 (sum_set_precommits (v_sum v1) (vs_pows (v_vals v1)) pc'))).
   set (coll := map_to_sparse (vs_pkh (v_vals v2)) pc').
   set (h := hd_height hd). set (r := cp_round cp).
   match goal with |- bind (check_voting_precommit_shift ?S) _ = _ -> _ => set (s2 := S) end.
